@@ -129,7 +129,16 @@ def bep_rules(run, repo):
     return n
 
 
-def preexp(run, repo):
+def preexp(run, repo, classes=('Reaction', 'ChemkinReaction', 'SurfaceReaction')):
+    n = 0
+    if 'Reaction' in classes:
+        n += preexp_reaction(run, repo)
+    n += preexp_surface(run, repo, [c_ for c_ in (('ChemkinReaction', CHEM), ('SurfaceReaction', SURF))
+                                    if c_[0] in classes])
+    return n
+
+
+def preexp_reaction(run, repo):
     n = 0
     # Reaction.get_A: (kB T/h) exp(dS_act) exp(m) by the entropy route, (kB T/h) q_TS/q_IS exp(m) by the q route
     I = Interp(repo, max_depth=12)
@@ -154,8 +163,13 @@ def preexp(run, repo):
         run.check(same(got, kb * T / h * dq * D.exp(m_)), 'REF.A', 'Reaction.get_A', 'q route rev=%s' % rev,
                   'A is %s, expected (kB T/h) (q_TS/q_IS) exp(m)' % show(got, 200), owner.module, fn)
         n += 2
+    return n
+
+
+def preexp_surface(run, repo, classes):
+    n = 0
     # Chemkin / Surface: kB/h without TS (or without entropy), Reaction.get_A/T with; / sden**(n_surf-1)
-    for cname, qual in (('ChemkinReaction', CHEM), ('SurfaceReaction', SURF)):
+    for cname, qual in classes:
         ci = repo.cls(qual)
         owner, fn = repo.find_method(ci, 'get_A')
         run.fn(owner.qual + '.get_A', ci.qual + '._get_n_surf')
@@ -197,6 +211,32 @@ def preexp(run, repo):
                         rxn.attrs['A'] = None
                     nsurf = sum(int(stoich[i].const_value()) for i in range(n_surf_species))
                     got = I.call_method(rxn, 'get_A', [], {'T': T, 'P': P, 'sden_operation': op})
+                    if cname == 'SurfaceReaction' and op == 'sum' and n_surf_species == 2:
+                        # the same factor in other unit systems: site densities are mol/cm2, the result is per
+                        # (quantity/length^2)^(n_surf-1) of the units asked for (string or Units object)
+                        from ..xlate import Frame
+                        fr_ = Frame(I, repo.module('pmutt'), {}, None, None)
+                        uobj = fr_.apply(repo.cls('pmutt.omkm.units.Units'), [], {'quantity': 'molec', 'length': 'm'},
+                                         None)
+                        for ulabel, uarg, q_, a_ in (('mol/m2', 'mol/m2', 'mol', 'm2'),
+                                                     ('molec/A2', 'molec/A2', 'molec', 'A2'),
+                                                     ('Units(molec, m)', uobj, 'molec', 'm2')):
+                            gu = I.call_method(rxn, 'get_A', [], {'T': T, 'P': P, 'sden_operation': op,
+                                                                  'units': uarg})
+                            conv = I.unit(q_) / I.unit('mol') / (I.unit(a_) / I.unit('cm2'))
+                            effu = sum(sd[1:], sd[0]) * conv
+                            if has_ts:
+                                kwq_ = {'T': T, 'P': P, 'ignore_q_elec': True, 'include_ZPE': False}
+                                bu = kb / h * expected_delta(I, rxn, 'get_q', kwq_, False, True)
+                            else:
+                                bu = kb / h
+                            wu = bu / effu.powi(nsurf - 1)
+                            run.check(isinstance(gu, Rat) and same(gu, wu), 'REF.A', cname + '.get_A',
+                                      'TS=%s units=%s' % (has_ts, ulabel),
+                                      'A in %s is %s, expected (kB/h%s) / (site density converted mol/cm2 -> %s)^%d = %s'
+                                      % (ulabel, show(gu, 160), ' * q_TS/q_IS' if has_ts else '', ulabel, nsurf - 1,
+                                         show(wu, 160)), owner.module, fn)
+                            n += 1
                     if has_ts:
                         kwq = {'T': T, 'P': P, 'ignore_q_elec': True, 'include_ZPE': False}
                         base = kb / h * expected_delta(I, rxn, 'get_q', kwq, False, True)
